@@ -65,6 +65,10 @@ def unrle(h):
     if not h.startswith('rle:'): return bytes.fromhex(h)
     return b''.join(bytes.fromhex(x.split('*')[0]) * int(x.split('*')[1]) for x in h[4:].split(','))
 
+def _stack8m_lowfd():
+    import resource
+    _stack8m(); resource.setrlimit(resource.RLIMIT_NOFILE, (24, 24))
+
 def clean_utf8(b):
     try: s = b.decode('utf-8')
     except UnicodeDecodeError: return False
@@ -200,7 +204,7 @@ def run(bdir, tier, known_ids, deadline, only_utf8=False):
     # several files on one command line (usage: eav FILE [FILE2 ...]): the getline buffer, the static output buffer and the decoder
     # cursor live across files, so a file is also an event in a history.  All ordered pairs over a menu of 14 files, all triples over 5,
     # and every pair with a path that cannot be opened in between (a warning on stderr, nothing on stdout, the other files still processed).
-    MISSING = None
+    MISSING = None; LOWFD = set()
     if not only_utf8:
         M = [b'', b'#c\n', b'ok@test.com\n', b'bad..x@test.com\n', b'ok@test.com', b'a\xff@b.com\r\n', b'\n', b' lead@test.com \n#c\nx@[1.2.3.4]\n',
              longs[4] + b'\n', longs[-2] + b'\n' + b'ok@test.com\n', b'a\x01b@c.com\n' * 3, 'ж@почта.рф\n'.encode(), b'a' * 120 + b'@test.com\n', b'a\x00b@c.com\nok@test.com\n']
@@ -212,6 +216,10 @@ def run(bdir, tier, known_ids, deadline, only_utf8=False):
         for a in M[:8]:
             for b in M[:8]: files.append((a, MISSING, b)); 
         files.append(tuple(M)); files.append(tuple(reversed(M)))
+        # more files on one command line than the process may hold open at once: run with the open-file limit lowered to 24 (an environment input like
+        # the stack limit), 60 small files - a tool that closes each file when done never notices, one that keeps them open runs out after ~20
+        many = tuple((b'u%d@test.com\n' % i) + (b'bad..%d@test.com\n' % i if i % 2 else b'') for i in range(60))
+        files.append(many); LOWFD.add(many)
     def one(idx):
         if time.time() - t0 > deadline: incomplete[0] = True; return
         datas = files[idx] if isinstance(files[idx], tuple) else (files[idx],)
@@ -225,7 +233,7 @@ def run(bdir, tier, known_ids, deadline, only_utf8=False):
             for q in paths:
                 if os.path.exists(q): os.unlink(q)
         try:
-            p = subprocess.run([exe] + paths, env=env, stdout=subprocess.PIPE, stderr=subprocess.PIPE, timeout=180 if sum(len(d) for d in datas if d) > (2 << 20) else 60, preexec_fn=_stack8m)
+            p = subprocess.run([exe] + paths, env=env, stdout=subprocess.PIPE, stderr=subprocess.PIPE, timeout=180 if sum(len(d) for d in datas if d) > (2 << 20) else 60, preexec_fn=_stack8m_lowfd if files[idx] in LOWFD else _stack8m)
         except subprocess.TimeoutExpired:
             viol('cli:timeout', 'no termination within the time limit (60 s; 180 s for files over 2 MiB)', data, len(datas)); cleanup(); return
         cleanup()
@@ -287,7 +295,7 @@ def replay(bdir, path):
         if d != b'\x1f': open(f, 'wb').write(d)
         elif os.path.exists(f): os.unlink(f)
     env = dict(os.environ); env['ASAN_OPTIONS'] = 'detect_leaks=1:exitcode=77'
-    p = subprocess.run([exe] + fs, env=env, preexec_fn=_stack8m)
+    p = subprocess.run([exe] + fs, env=env, preexec_fn=_stack8m_lowfd if len(fs) > 24 else _stack8m)
     print('exit status', p.returncode)
     return 1 if p.returncode != 0 else 0
 
